@@ -1474,3 +1474,49 @@ def shared_bad_component(case):
         if f"GET {path}" not in text and f"{path} " not in text and not text.rstrip().endswith(path):
             return f"operation GET {path} is neither generated nor named by a diagnostic (diagnostics name: {sorted(set(w for w in text.split() if w.startswith('/things')))})"
     return None
+
+
+# ---- loadable documents with unusual but legal content: generate() returns, whatever it thinks of them ------------------------
+
+def odd_documents_cases(tier):
+    ok = {"200": {"description": ""}}
+    obj = lambda props, **kw: {"type": "object", "properties": props, **kw}      # noqa: E731
+    docs = {
+        "non-string-examples": _base({"/x": {"get": {"operationId": "g", "parameters": [
+            {"name": "n", "in": "query", "schema": {"type": "integer", "example": 25}},
+            {"name": "o", "in": "query", "schema": {"type": "string", "example": {"k": [1, 2]}}}], "responses": ok}}},
+            {"M": obj({"count": {"type": "integer", "example": 3}, "tags": {"type": "array", "items": {"type": "string"}, "example": ["a", "b"]},
+                       "flag": {"type": "boolean", "example": False}, "when": {"type": "string", "format": "date", "example": None}},
+                      example={"count": 1})}),
+        "non-string-descriptions-of-values": _base({}, {"M": obj({"p": {"type": "string", "default": "x", "example": 1.5, "description": ""}})}),
+        "empty-everything": {"openapi": "3.0.3", "info": {"title": "", "version": ""}, "paths": {}},
+        "numeric-looking-names": _base({"/1/{2}": {"get": {"parameters": [{"name": "2", "in": "path", "required": True, "schema": {"type": "string"}}],
+                                                           "responses": {"200": {"description": ""}, "default": {"description": ""}}}}},
+                                       {"1": obj({"2": {"type": "integer"}, "": {"type": "string"}})}),
+        "unhashable-defaults": _base({}, {"E": {"type": "string", "enum": ["a", "b"], "default": ["a"]},
+                                          "M": obj({"e": {"allOf": [{"$ref": "#/components/schemas/E"}], "default": {"a": 1}},
+                                                    "i": {"type": "integer", "enum": [1, 2], "default": [1]},
+                                                    "u": {"oneOf": [{"type": "string"}, {"type": "integer"}], "default": {"x": 1}},
+                                                    "c": {"const": "k", "default": ["k"]}})}),
+        "defaults-of-other-types": _base({}, {"M": obj({"b": {"type": "boolean", "default": "maybe"}, "n": {"type": "number", "default": [1]},
+                                                         "d": {"type": "string", "format": "date", "default": 5},
+                                                         "u": {"type": "string", "format": "uuid", "default": {"a": 1}}})}),
+        "deep-nesting": _base({}, {"M": obj({"a": obj({"b": obj({"c": obj({"d": {"type": "array", "items": obj({"e": {"type": "integer"}})}})})})})}),
+        "self-references": _base({}, {"A": obj({"a": {"$ref": "#/components/schemas/A"}, "l": {"type": "array", "items": {"$ref": "#/components/schemas/A"}}}),
+                                      "B": {"allOf": [{"$ref": "#/components/schemas/B"}]}, "C": {"$ref": "#/components/schemas/C"}}),
+        "everything-optional-missing": _base({"/x": {"get": {"responses": {}}, "post": {"requestBody": {"content": {}}, "responses": ok}}}),
+        "media-type-parameters": _base({"/x": {"post": {"requestBody": {"content": {"application/json; charset=utf-8": {"schema": obj({"a": {"type": "string"}})},
+                                                                                     "multipart/form-data; boundary=x": {"schema": obj({"b": {"type": "string"}})}}},
+                                                      "responses": {"200": {"description": "", "content": {"text/plain; charset=utf-8": {"schema": {"type": "string"}}}}}}}}),
+    }
+    return [{"name": k, "doc": v} for k, v in docs.items()]
+
+
+def odd_documents(case):
+    try:
+        files, errors = _tree(case["doc"])
+    except BaseException as e:  # noqa
+        e = getattr(e, "__cause__", None) or e
+        return f"generate() raised {type(e).__name__}: {str(e)[:160]} on the legal document {case['name']!r} instead of returning diagnostics"
+    from .replay import py_syntax_errors
+    return None
